@@ -2,9 +2,9 @@ package main
 
 import (
 	"fmt"
-	"regexp"
 	"go/token"
 	"go/types"
+	"regexp"
 	"strings"
 
 	"golang.org/x/tools/go/ssa"
@@ -12,10 +12,10 @@ import (
 
 func init() {
 	register(&propDef{
-		ID:    "C06",
-		Level: "other",
+		ID:      "C06",
+		Level:   "other",
 		Explain: "Data-race necessary conditions decided without a schedule, over all functions reachable from the per-request entry points (discovered by role): (S1) no store to memory reachable from a structure that lives across requests (types reachable from package variables, atomically published values, handler receivers and captured variables) unless the object is freshly built on the request path or a write lock is held at the store (interprocedural parameter/closure freshness, must-hold lockset); (S2) a field or variable that is accessed through sync/atomic anywhere is never read or written plainly; (S3) every access to a field of the reviewed lock table (tcp.Server.listeners/conns, the gRPC pool map, the glob-cache ring, the access-log writer, the Vault PKI cache, the server registry) holds its lock, directly or in every caller; (S4) the round-robin picker derives its index from the result of the atomic read-modify-write, and pickers select from the weighted ring; (S5) nothing writes a table after it is passed to the publishing store; (S6) each per-request lookup loads the published table once and nothing below Table.Lookup reloads it; (B1) in GlobCache.Get the eviction of the overwritten slot precedes the insertion, the ring grows only under n < len(l), and a cache miss is re-checked under the lock; (B2) no MustCompile of a non-constant pattern and no unguarded modulus on the request path. (S1/S5, extended) in-place library sorts/copies of a slice rooted in shared or published state are writes; Not decided: exact per-target pick counts under interleavings (arithmetic over histories) beyond their necessary condition S4.",
-		Run:   runC06,
+		Run:     runC06,
 		Trusted: []string{"sync.Mutex/RWMutex provide mutual exclusion; sync/atomic operations are atomic; sync.Map is safe for concurrent use",
 			"net/http hands each handler invocation its own *http.Request and ResponseWriter"},
 		Mutants: []mutant{
